@@ -37,7 +37,7 @@ ASSUMPTIONS = ["field names are dataclass fields, content_id or unknown names (i
                "digest size 8: no content_id collisions among the generated nodes",
                "class identity is the class name"]
 
-SAFE = set("abcdefghijklmnopqrstuvwxyzABCDEFGHIJKLMNOPQRSTUVWXYZ0123456789 _:=<>',-@/;!#%&~")
+SAFE = set("abcdefghijklmnopqrstuvwxyzABCDEFGHIJKLMNOPQRSTUVWXYZ0123456789 _:=<>',-@/;!#%&~é雪")   # non-ASCII: seeded change C08-7
 CAPS = ["a", "b", "c", "d", "e", "aa", "x_y", "_z", "rest", "tail", "v", "w", "k", "m", "n_n"]
 
 
@@ -294,6 +294,17 @@ class PatGen:
                 avail.append((kf.args[0].decode(), ("ns", list(kf.args[2]))))
         nf = rng.choice([0, 1, 1, 2, 2, 3])
         fs = []
+        # a capture that binds None (absent optional child / None property) referenced by a later $variable: the comparison is
+        # `None == value`, not "variable unknown" (seeded change C08-9)
+        nones = [a for a in avail if a[1][0] == "none" or (a[1][0] == "p" and a[1][1].name == "VNone")]
+        if nones and self.free and rng.random() < 0.3:
+            n1 = rng.choice(nones)
+            c = self.free.pop()
+            self.note(Some(c))
+            fs.append(Con("F", n1[0], Con("FAny", Some(c)) if rng.random() < 0.6 else Con("FVal", Con("VN"), Some(c))))
+            n2 = rng.choice(nones if rng.random() < 0.6 else avail)
+            fs.append(Con("F", n2[0], Con("FVal", Con("VV", c), None)))
+            nf = rng.choice([0, 0, 1])
         for _ in range(nf):
             k = rng.random()
             if avail and k < 0.8:
